@@ -183,7 +183,7 @@ func Recv[T any](ch <-chan T) T {
 		if v, ok := recvMail(ch); ok {
 			return v
 		}
-		if !Blocked() {
+		if !blockedRecv(ch) {
 			return <-ch
 		}
 	}
@@ -203,11 +203,180 @@ func Recv2[T any](ch <-chan T) (T, bool) {
 		if v, ok := recvMail(ch); ok {
 			return v, true
 		}
-		if !Blocked() {
+		if !blockedRecv(ch) {
 			v, ok := <-ch
 			return v, ok
 		}
 	}
+}
+
+// Receivers parked on unbuffered channels - in Recv/Recv2, or in a rewritten
+// select statement that found no case ready - are registered, so that a send
+// case of a select (TrySend) can tell that a receiver is ready, as the runtime
+// can for a goroutine parked in a receive. A waiter is served at most once:
+// the sender claims it and posts the value, which the waiter takes when it
+// runs next (a select then tries the claimed case first).
+type chanWaiter struct {
+	chans   []unsafe.Pointer // per case; nil for cases that are not receives from an unbuffered channel
+	claimed int              // index of the case a sender has served, or -1
+}
+
+//go:norace
+func (s *Sim) addWaiter(chans []unsafe.Pointer) *chanWaiter {
+	w := &chanWaiter{chans: chans, claimed: -1}
+	for i := 0; i < len(chans); i++ {
+		if chans[i] != nil {
+			// on an unbuffered channel the receive synchronises-before the
+			// completion of the matching send: what this receiver did before it
+			// parked is ordered before what a sender served by TrySend does next
+			raceReleaseMerge(unsafe.Add(chans[i], 8))
+		}
+	}
+	n := len(s.waiters)
+	bigger := make([]*chanWaiter, n+1)
+	for i := 0; i < n; i++ {
+		bigger[i] = s.waiters[i]
+	}
+	bigger[n] = w
+	s.waiters = bigger
+	return w
+}
+
+//go:norace
+func (s *Sim) removeWaiter(w *chanWaiter) {
+	for i := 0; i < len(s.waiters); i++ {
+		if s.waiters[i] == w {
+			for k := i; k+1 < len(s.waiters); k++ {
+				s.waiters[k] = s.waiters[k+1]
+			}
+			s.waiters[len(s.waiters)-1] = nil
+			s.waiters = s.waiters[:len(s.waiters)-1]
+			return
+		}
+	}
+}
+
+// claimWaiter finds the longest waiting unserved receiver on the channel.
+//
+//go:norace
+func (s *Sim) claimWaiter(p unsafe.Pointer) bool {
+	for i := 0; i < len(s.waiters); i++ {
+		w := s.waiters[i]
+		if w.claimed >= 0 {
+			continue
+		}
+		for k := 0; k < len(w.chans); k++ {
+			if w.chans[k] == p {
+				w.claimed = k
+				return true
+			}
+		}
+	}
+	return false
+}
+
+// blockedRecv parks the task as a receiver on ch until the scheduler runs it
+// again; false if the caller is not a simulated task.
+//
+//go:norace
+func blockedRecv[T any](ch <-chan T) bool {
+	s := cur
+	if ch == nil || cap(ch) != 0 || !s.inTask() {
+		return Blocked()
+	}
+	w := s.addWaiter([]unsafe.Pointer{dataPtr(ch)})
+	ok := Blocked()
+	s.removeWaiter(w)
+	return ok
+}
+
+// SelectBlocked is what a rewritten select statement without default does
+// when no case is ready: the task parks, registered as a receiver on the
+// unbuffered channels of its receive cases (chans has one entry per case, nil
+// for the others). It returns the index of the case a sender has served in
+// the meantime, or -1.
+//
+//go:norace
+func SelectBlocked(chans ...any) int {
+	s := cur
+	if !s.inTask() {
+		RealBlock()
+		return -1
+	}
+	ptrs := make([]unsafe.Pointer, len(chans))
+	found := false
+	for i := 0; i < len(chans); i++ {
+		if chans[i] == nil {
+			continue
+		}
+		if p := dataPtr(chans[i]); p != nil && chanCap(p) == 0 {
+			ptrs[i] = p
+			found = true
+		}
+	}
+	if !found {
+		Blocked()
+		return -1
+	}
+	w := s.addWaiter(ptrs)
+	Blocked()
+	s.removeWaiter(w)
+	return w.claimed
+}
+
+// chanCap reads the capacity of a channel from its runtime header (qcount
+// uint, dataqsiz uint, ...): the static type is not known here.
+//
+//go:norace
+func chanCap(p unsafe.Pointer) uint {
+	return *(*uint)(unsafe.Add(p, unsafe.Sizeof(uint(0))))
+}
+
+// TryRecv is one receive case of a rewritten select statement: a
+// non-blocking receive that also sees a value a simulated sender has posted
+// on an unbuffered channel. got reports whether the case fired; ok is the
+// second result of the receive (false: closed channel).
+//
+//go:norace
+func TryRecv[T any](ch <-chan T) (v T, ok bool, got bool) {
+	select {
+	case v, ok = <-ch:
+		progress()
+		return v, ok, true
+	default:
+	}
+	if v, got = recvMail(ch); got {
+		return v, true, true
+	}
+	return v, false, false
+}
+
+// TrySend is one send case of a rewritten select statement: a non-blocking
+// send that also succeeds on an unbuffered channel when a simulated receiver
+// is parked in a receive on it (the value is posted for that receiver).
+//
+//go:norace
+func TrySend[T any](ch chan<- T, v T) bool {
+	select {
+	case ch <- v:
+		progress()
+		return true
+	default:
+	}
+	s := cur
+	if ch == nil || cap(ch) != 0 || !s.inTask() {
+		return false
+	}
+	p := dataPtr(ch)
+	if !s.claimWaiter(p) {
+		return false
+	}
+	it := &mailItem{ch: p, val: v}
+	raceReleaseMerge(it.ch)
+	raceAcquire(unsafe.Add(p, 8))
+	s.post(it)
+	progress()
+	return true
 }
 
 // CoopLock replaces x.Lock() / x.RLock() on a sync.Mutex or sync.RWMutex: it
@@ -445,4 +614,32 @@ func WGWait(wg *sync.WaitGroup) {
 func AfterOp[T any](v T) T {
 	PointAt(0)
 	return v
+}
+
+// OnceFunc, OnceValue and OnceValues replace their sync namesakes: while the
+// wrapped function runs the task is not pre-empted at inner points (as for
+// once.Do), because a second caller would park inside the real sync.Once.
+
+func OnceFunc(f func()) func() {
+	return sync.OnceFunc(func() {
+		Locked()
+		defer Unlocking()
+		f()
+	})
+}
+
+func OnceValue[T any](f func() T) func() T {
+	return sync.OnceValue(func() T {
+		Locked()
+		defer Unlocking()
+		return f()
+	})
+}
+
+func OnceValues[T1, T2 any](f func() (T1, T2)) func() (T1, T2) {
+	return sync.OnceValues(func() (T1, T2) {
+		Locked()
+		defer Unlocking()
+		return f()
+	})
 }
